@@ -17,6 +17,33 @@ ALLOW = {
     ('simulator:_BlockResolver.resolve', 'setattr(obj, attr, blk)'):
         "registered attribute names only; checked by C15 R15.5",
 }
+
+
+def _allowed(fi, x) -> bool:
+    """Structural (local-name independent) form of the allow-list."""
+    if not (isinstance(x, ast.Call) and call_name(x) == 'setattr' and len(x.args) == 3 and not x.keywords):
+        return False
+    if fi.fid == 'block:Block.__init__':
+        # setattr(self, K, V) where K passed a startswith() test against x_/X_ prefixes only
+        key = x.args[1]
+        if norm(x.args[0]) != 'self' or not isinstance(key, ast.Name):
+            return False
+        for t in own_nodes(fi.node):
+            if isinstance(t, ast.Call) and call_name(t) == 'startswith' and \
+                    isinstance(t.func, ast.Attribute) and norm(t.func.value) == key.id and t.args:
+                try:
+                    pre = ast.literal_eval(t.args[0])
+                except ValueError:
+                    continue
+                pre = (pre,) if isinstance(pre, str) else tuple(pre)
+                if pre and all(isinstance(p, str) and p[:2] in ('x_', 'X_') for p in pre):
+                    return True
+        return False
+    if fi.fid == 'simulator:_BlockResolver.resolve':
+        return all(isinstance(a, ast.Name) for a in x.args)      # content checked by C15 R15.5
+    return False
+
+
 SUSPECT_CALLS = {'setattr', 'delattr', 'exec', 'eval', '__setattr__', '__delattr__'}
 
 
@@ -35,7 +62,7 @@ def check_a1(ck) -> list[str]:
                 site = norm(x)
             if site is None:
                 continue
-            if (fi.fid, site) in ALLOW:
+            if _allowed(fi, x):
                 continue
             if call_name(x) in ('vars',) and fi.fid in ('block:SBlock.__init_subclass__',
                                                         'fsm:FSM._build_tables'):
